@@ -1,6 +1,8 @@
 import Cardutil.Basic
 import Cardutil.Py.Int
 import Cardutil.Py.Hex
+import Cardutil.Py.Time
+import Cardutil.Py.Decimal
 /-
   Run-time library for the TRANSLATED source (`Gen/Src.lean`, written by harness/pytrans.py from
   /repo's Python on every run): the Python built-ins and operators the translator maps to, with
@@ -246,6 +248,10 @@ def catchData {α} (kinds : List ExcKind) : Outcome α → Outcome α
 structure BitCfg where
   field_type : Text
   field_length : Int
+  /-- `bit_config.get('field_python_type')`; an absent key (None) is the empty text: it equals no type name -/
+  field_python_type : Text := []
+  /-- `bit_config.get('field_date_format')`; `none` = absent -/
+  field_date_format : Option Text := none
   deriving Repr
 
 /-- a value that is a `str` or a `bytes` object (`isinstance(v, bytes)` tells which) -/
@@ -253,6 +259,41 @@ inductive SB
   | str (t : Text)
   | bytes (b : Bytes)
   deriving Repr
+
+/-- what `_string_to_pytype` can return: the text itself, an int, a Decimal, a datetime -/
+inductive PyVal
+  | str (t : Text)
+  | int (i : Int)
+  | dec (d : Dec)
+  | dt (d : DateTime)
+  deriving Repr
+
+/-- a `strptime` format made of the numeric directives %y %Y %m %d %H %M %S and literal characters; `none` for any other
+    directive (outside what Py/Time.lean models) -/
+def parseFormat : Text → Option (List Directive)
+  | [] => some []
+  | 37 :: c :: rest =>
+    (match c with
+      | 121 => some Directive.y | 89 => some Directive.Y | 109 => some Directive.m | 100 => some Directive.d
+      | 72 => some Directive.H | 77 => some Directive.M | 83 => some Directive.S | _ => none).bind (fun d =>
+        (parseFormat rest).map (d :: ·))
+  | c :: rest => (parseFormat rest).map (Directive.lit c :: ·)
+
+/-- `datetime.datetime.strptime(s, fmt)`: ValueError when the text does not match (a format with directives outside
+    the modelled ones is rendered as ValueError too: such formats are outside the properties' domains) -/
+def strptimeText (k : IntClasses) (s fmt : Text) : Outcome DateTime :=
+  match parseFormat fmt with
+  | none => .escape .valueError
+  | some ds =>
+    match Py.strptime k ds s with
+    | some d => .ok d
+    | none => .escape .valueError
+
+/-- `decimal.Decimal(s)`: `decimal.InvalidOperation` when the text is no number -/
+def decimalOfStr (k : IntClasses) (s : Text) : Outcome Dec :=
+  match pyDecimal k s with
+  | some d => .ok d
+  | none => .escape .decimalError
 
 /-- `len(v)` -/
 def sbLen : SB → Int
